@@ -56,6 +56,8 @@ def gen(ctx):
                 k += 1
         for N in (1, 2, 3):
             variants.append(((N, (N + flip) % 2, rnd.choice([1, 3]), 0, 1), ["dbg", "bmi2"][(N + flip + 1) % 2]))
+        # a second compiler (other order of evaluation of function arguments, other builtins)
+        variants.append(((2 + ctx.seed % 2, flip, rnd.choice([1, 3]), 0, 0), "clang"))
     else:
         k = 0
         for N in (1, 2, 3, 4):
@@ -68,6 +70,9 @@ def gen(ctx):
             for T in (0, 1):
                 for cfg in ("dbg", "bmi2", "rel"):
                     variants.append(((N, T, rnd.choice([1, 2, 3, 4]), 0, 1), cfg))
+        for N in (1, 2, 3):
+            for T in (0, 1):
+                variants.append(((N, T, rnd.choice([1, 2, 3]), 0, 0), "clang"))
     # ---- boxes per dimension
     boxes = {}
     if ctx.quick:
